@@ -48,10 +48,10 @@ def cases(ctx):
     for rep in range(reps):
         for a in CODECS:
             for b in CODECS:
-                if a == b:
-                    continue
                 for fin in ('vbs', '1014'):
                     for fout in ('vbs', '1014'):
+                        if a == b and (fin == fout or rep % 3):
+                            continue     # same encoding both sides: a pure change of layout (one repetition in three)
                         for tool in ('mci_ipm_encode', 'mci_ipm_param_encode'):
                             i += 1
                             if ctx.mine(i):
@@ -221,6 +221,8 @@ def judge(ctx, case):
     ctx.case_done(case)
     ctx.seen('tools/entries', '%s/%s' % (tool, case['entry']))
     ctx.seen('codec pairs', '%s->%s' % (a, b))
+    if a == b and fin != fout:
+        ctx.count('layout-only conversions (same encoding both sides)')
     ctx.seen('format pairs', '%s->%s' % (fin, fout))
     cfg = msgwork.cfg_of('packaged')
     is_param = tool in ('mci_ipm_param_encode', 'paramconv')
@@ -340,6 +342,8 @@ def require(m):
         reasons.append('fewer than 3 blank-padded unblocked parameter files')
     if not m['counters'].get('conversions run with the documented default arguments'):
         reasons.append('default arguments never used')
+    if m['counters'].get('layout-only conversions (same encoding both sides)', 0) < 6 and not m['violations']:
+        reasons.append('fewer than 6 layout-only conversions')
     if len(set(m['classes'].get('codec pairs', ()))) < 6:
         reasons.append('not all 6 ordered codec pairs driven')
     if len(set(m['classes'].get('format pairs', ()))) < 4:
